@@ -53,7 +53,7 @@ Print Assumptions C15_machine_from_any_state.
 (* taiko (after the fix 8d6162b): the same protocol theorem — nth exhausts and returns None past
    the end, len = number of hits still to come (never underflows), None forever afterwards *)
 Theorem C15_taiko : forall (S : Type) (process : S -> Z -> S) (s0 : S) (flags : list bool),
-  zlen flags < 18446744073709551616 -> forall ops : list gop, Forall nth_ok ops ->
+  zlen flags < 4294967295 -> forall ops : list gop, Forall nth_ok ops ->
   run_gops (taiko_next S process flags) (taiko_nth S process flags) (taiko_len S flags) (fun v => v) ops
            (taiko_new S s0)
   = spec_gops (oneshots (taiko_oneshot S process s0 flags) (taiko_total_hits flags)) ops.
